@@ -203,6 +203,7 @@ pub fn run_batch(
         let seeds = seeds.clone();
         let root = root.to_path_buf();
         let family = spec.family.to_string();
+        let family2 = spec.family2.map(|s| s.to_string());
         let property = spec.id.to_string();
         handles.push(std::thread::spawn(move || loop {
             let i = next.fetch_add(1, Ordering::SeqCst);
@@ -216,8 +217,12 @@ pub fn run_batch(
             }
             let seed = seeds[i];
             let dir = root.join(format!("w{w}-{seed}"));
+            let fam = match &family2 {
+                Some(f2) if seed % 3 == 2 => f2.clone(),
+                _ => family.clone(),
+            };
             let job = ChildJob::Seed {
-                family: family.clone(),
+                family: fam,
                 property: property.clone(),
                 seed,
                 tier,
@@ -305,7 +310,7 @@ pub fn minimise(
     let mut best = plan.clone();
     let mut tries = 0usize;
     let mut chunk = (best.steps.len() / 2).max(1);
-    let over = |tries: usize| start.elapsed() >= budget || tries >= 150;
+    let over = |tries: usize| start.elapsed() >= budget || tries >= 400;
     loop {
         let mut i = 0;
         let mut progressed = false;
